@@ -131,6 +131,35 @@ pub fn malformed(_cex: &Value) -> Result<String, String> {
       }
     });
   }
+  // integrity metadata (sd_jwt_vc): whatever parse / serde accept can be taken apart by every accessor
+  {
+    use identity_credential::sd_jwt_vc::metadata::IntegrityMetadata;
+    let mut texts: Vec<String> = Vec::new();
+    let good = "sha384-dOTZf16X8p34q2/kYyEFm0jh89uTjikhnzjeLeF0FHsEaYKb1A1cv+Lyv4Hk8vHd";
+    for v in variants(good.as_bytes()) {
+      texts.push(String::from_utf8_lossy(&v).into_owned());
+    }
+    for t in ["", "-", "--", "sha", "sha-", "sha--", "sha-AAAA", "sha-AAAA-opt", "sha-AAAA?opt", "sha-AAAA-a-b", "sha-AA?A", "sha?AAAA", "sha-AAAA=", "sha-!!!!", "-AAAA", "sha-AAAA-", "sha-QUJD?x=1", "a-QUJD-x?y"] {
+      texts.push(t.to_owned());
+    }
+    for t in &texts {
+      probe("[integrity] IntegrityMetadata", t.as_bytes(), &|p: &[u8]| {
+        let s = String::from_utf8_lossy(p).into_owned();
+        let mut all = Vec::new();
+        if let Ok(m) = IntegrityMetadata::parse(&s) {
+          all.push(m);
+        }
+        if let Ok(m) = serde_json::from_value::<IntegrityMetadata>(serde_json::Value::String(s.clone())) {
+          all.push(m);
+        }
+        for m in all {
+          let _ = (m.alg().len(), m.digest().len(), m.digest_bytes().len(), m.options().map(str::len), m.to_string());
+        }
+      });
+    }
+  }
+  let only: Option<String> = _cex.get("only").and_then(Value::as_str).map(str::to_owned);
+  let log: Vec<String> = log.into_iter().filter(|l| only.as_ref().map(|o| l.contains(o.as_str())).unwrap_or(true)).collect();
   if log.is_empty() {
     Err("malformed-input corpus: no panic".to_owned())
   } else {
